@@ -84,10 +84,14 @@ func nthPos(n, l int) int {
 	}
 	return n
 }
-func nthI(n int) func([]int) int         { return func(v []int) int { return v[nthPos(n, len(v))] } }
-func nthF(n int) func([]float64) float64 { return func(v []float64) float64 { return v[nthPos(n, len(v))] } }
-func nthB(n int) func([]bool) bool       { return func(v []bool) bool { return v[nthPos(n, len(v))] } }
-func nthS(n int) func([]*string) *string { return func(v []*string) *string { return v[nthPos(n, len(v))] } }
+func nthI(n int) func([]int) int { return func(v []int) int { return v[nthPos(n, len(v))] } }
+func nthF(n int) func([]float64) float64 {
+	return func(v []float64) float64 { return v[nthPos(n, len(v))] }
+}
+func nthB(n int) func([]bool) bool { return func(v []bool) bool { return v[nthPos(n, len(v))] } }
+func nthS(n int) func([]*string) *string {
+	return func(v []*string) *string { return v[nthPos(n, len(v))] }
+}
 
 // AggsFor lists the aggregation functions applicable to a column kind.
 func AggsFor(k Kind) []string {
